@@ -677,7 +677,14 @@ def params_normalised(repo):
           _recognised_but_unguarded[hname] = not ok[hname]
   # not in the recognised form: the conversion may live elsewhere in the module of the parameter class (another method, a
   # strategy table, a module-level helper) -- that is not decided; only its absence everywhere is a recognised defect
-  converts_somewhere = any(isinstance(c, ast.Call) and ((isinstance(c.func, ast.Name) and c.func.id == 'int')
+  # (conversions inside the two recognised validators themselves do not count: each of them serves its own kind of parameter)
+  inside_ = set()
+  for hname_ in ('_test_value_vs_threshold', '_test_range'):
+    if hname_ in cls.methods:
+      inside_ |= {id(x_) for x_ in ast.walk(getattr(cls.methods[hname_], 'orig_node', None) or cls.methods[hname_].node)}
+      inside_ |= {id(x_) for x_ in ast.walk(cls.methods[hname_].node)}
+  converts_somewhere = any(isinstance(c, ast.Call) and id(c) not in inside_ and not isinstance(getattr(c, '_parent', None), ast.Compare)     # int(v) != v only tests integrality
+                           and ((isinstance(c.func, ast.Name) and c.func.id == 'int')
                                                           or (isinstance(c.func, ast.Name) and c.func.id == 'map' and c.args and norm(c.args[0]) == 'int')
                                                           or (isinstance(c.func, ast.Attribute) and c.func.attr == 'astype'))
                            for c in ast.walk(cls.module.tree))
